@@ -84,7 +84,7 @@ RepeatOp(src, dst) ==
   /\ Bound /\ live[src] /\ ~HasDim(reg[src], "n") /\ NDim(reg[src]) <= 2
   /\ Put4(dst, NewAxis(reg[src], "n", 0, <<10, 12>>), FALSE, grp[src]) /\ Record("repeat", Args(src, dst, "", <<10, 12>>))
 SqueezeBack(src, dst) ==        \* take the first slice of the repeated dimension again
-  /\ Bound /\ live[src] /\ HasDim(reg[src], "n") /\ DimPos(reg[src], "n") = 1
+  /\ Bound /\ live[src] /\ HasDim(reg[src], "n") /\ DimPos(reg[src], "n") = 1 /\ NDim(reg[src]) >= 2
   /\ LET a == reg[src]
          r == Take(a, [i \in 1..NDim(a) |-> IF i = 1 THEN IxSc(a.labs[1][1]) ELSE IxAll], "label", <<>>)
      IN r.ok /\ Put4(dst, r.val, FALSE, grp[src]) /\ Record("first_of_n", Args(src, dst, "", <<>>))
@@ -111,13 +111,13 @@ Query(kind, r1, r2) ==
 
 (* ---------- in-place operations, on owning registers only ---------- *)
 SetItem(r, form) ==
-  /\ Bound /\ live[r] /\ HasDim(reg[r], "x")
+  /\ Bound /\ live[r] /\ HasDim(reg[r], "x") /\ Len(reg[r].labs[XPos(reg[r])]) >= 1
   /\ LET a == reg[r]  p == XPos(a)  L == a.labs[p]
          ix == IF form = "scalar" THEN IxSc(L[Len(L)]) ELSE IxLi(<<L[Len(L)], L[1]>>)
          res == Put(a, [i \in 1..NDim(a) |-> IF i = p THEN ix ELSE IxAll], "label", <<>>, [shape |-> <<>>, cells |-> <<950>>, kind |-> "f"])
      IN res.ok /\ reg' = [reg EXCEPT ![r] = res.val] /\ DropAliases(r) /\ Record("setitem", Args(r, r, form, <<>>))
 Relabel(r, form, new) ==      \* form: "all" (a.axes['x'][:] = new), "attr" (a.x = new), "one" (a.axes['x'][0] = new[1])
-  /\ Bound /\ live[r] /\ HasDim(reg[r], "x")
+  /\ Bound /\ live[r] /\ HasDim(reg[r], "x") /\ Len(reg[r].labs[XPos(reg[r])]) >= 1
   /\ LET a == reg[r]  p == XPos(a)  L == a.labs[p]
          L2 == IF form = "one" THEN [L EXCEPT ![1] = new[1]] ELSE new
      IN /\ Len(L2) = Len(L) /\ NoDup(L2)
